@@ -1,0 +1,78 @@
+// Verification hooks; compiled only with `--cfg oq3_verif`.
+//
+// * progress guard: a grammar loop that makes no progress pushes marker/error events
+//   for ever without consuming a token. Count events since the last consumed token and
+//   panic (attributably) instead of allocating without bound.
+// * raw event list of the last parse, before `event::process`, for conformance checks.
+
+use std::cell::{Cell, RefCell};
+
+use crate::event::Event;
+
+/// Look-ahead step limit under verification (the production limit is 15 000 000).
+pub const STEP_LIMIT: u32 = 20_000;
+/// Maximum number of events pushed without consuming a token.
+pub const EVENTS_WITHOUT_PROGRESS_LIMIT: u32 = 10_000;
+
+/// `(tag, kind, n_raw_tokens, forward_parent)`; tag is one of "start", "finish", "token", "error".
+pub type RawEvent = (&'static str, u16, u8, Option<u32>);
+
+thread_local! {
+    static SINCE_BUMP: Cell<u32> = const { Cell::new(0) };
+    static KEEP_EVENTS: Cell<bool> = const { Cell::new(false) };
+    static LAST_EVENTS: RefCell<Vec<RawEvent>> = const { RefCell::new(Vec::new()) };
+    static LAST_EVENT_COUNT: Cell<usize> = const { Cell::new(0) };
+}
+
+pub(crate) fn on_new_parser() {
+    SINCE_BUMP.with(|c| c.set(0));
+}
+
+pub(crate) fn on_bump() {
+    SINCE_BUMP.with(|c| c.set(0));
+}
+
+pub(crate) fn on_event() {
+    SINCE_BUMP.with(|c| {
+        let n = c.get() + 1;
+        assert!(
+            n <= EVENTS_WITHOUT_PROGRESS_LIMIT,
+            "oq3_verif: parser makes no progress"
+        );
+        c.set(n);
+    });
+}
+
+pub(crate) fn on_finish(events: &[Event]) {
+    LAST_EVENT_COUNT.with(|c| c.set(events.len()));
+    if KEEP_EVENTS.with(|k| k.get()) {
+        let raw = events
+            .iter()
+            .map(|e| match e {
+                Event::Start {
+                    kind,
+                    forward_parent,
+                } => ("start", *kind as u16, 0u8, *forward_parent),
+                Event::Finish => ("finish", 0, 0, None),
+                Event::Token { kind, n_raw_tokens } => ("token", *kind as u16, *n_raw_tokens, None),
+                Event::Error { .. } => ("error", 0, 0, None),
+            })
+            .collect();
+        LAST_EVENTS.with(|l| *l.borrow_mut() = raw);
+    }
+}
+
+/// Keep (or not) the raw event list of subsequent parses on this thread.
+pub fn keep_events(on: bool) {
+    KEEP_EVENTS.with(|k| k.set(on));
+}
+
+/// Number of parser events of the last finished parse on this thread.
+pub fn last_event_count() -> usize {
+    LAST_EVENT_COUNT.with(|c| c.get())
+}
+
+/// Raw events of the last finished parse on this thread (if `keep_events(true)`).
+pub fn last_events() -> Vec<RawEvent> {
+    LAST_EVENTS.with(|l| l.borrow().clone())
+}
